@@ -13,7 +13,8 @@ Inductive transport := TCP | Unix.
 Record conn := {
   k_client_open : bool;      (* the client has not disconnected *)
   k_session : bool;          (* the session coroutine is still running (server side open) *)
-  k_replies : nat            (* replies written to this client, handshake reply included *)
+  k_replies : nat;           (* replies written to this client, handshake reply included *)
+  k_hello : bool             (* the client has sent its handshake line *)
 }.
 
 Record srv := {
@@ -32,6 +33,9 @@ Inductive label :=
 | LConnect                   (* a client connects and performs the handshake *)
 | LConnectBad                (* a client connects and sends garbage instead of the handshake, or
                                 hangs up at once: the session fails, its connection is closed *)
+| LOpen                      (* a client connects but does not send its handshake yet: its session
+                                waits for the handshake line while other clients come and go *)
+| LHello (c : nat)           (* client c (connected by LOpen) sends its handshake line *)
 | LSend (c : nat)            (* client c sends one command line *)
 | LLeave (c : nat)           (* client c disconnects (clean close, 'exit' command or EOF) *)
 | LStop.                     (* the serving task is cancelled *)
@@ -77,7 +81,7 @@ Definition step (s : srv) (l : label) : srv :=
   | LConnect =>
       if v_listening s
       then set_conns s (v_conns s ++ [{| k_client_open := true; k_session := true;
-                                        k_replies := 1 |}])
+                                        k_replies := 1; k_hello := true |}])
       else {| v_kind := v_kind s; v_started := v_started s; v_listening := v_listening s;
               v_stopreq := v_stopreq s; v_done := v_done s; v_sockfile := v_sockfile s;
               v_conns := v_conns s; v_refused := S (v_refused s) |}
@@ -86,19 +90,40 @@ Definition step (s : srv) (l : label) : srv :=
          client is not answered.  It counts as a connection that came and went. *)
       if v_listening s
       then set_conns s (v_conns s ++ [{| k_client_open := false; k_session := false;
-                                        k_replies := 0 |}])
+                                        k_replies := 0; k_hello := false |}])
       else {| v_kind := v_kind s; v_started := v_started s; v_listening := v_listening s;
               v_stopreq := v_stopreq s; v_done := v_done s; v_sockfile := v_sockfile s;
               v_conns := v_conns s; v_refused := S (v_refused s) |}
+  | LOpen =>
+      (* the connection is accepted; the session coroutine waits in client_handshake() *)
+      if v_listening s
+      then set_conns s (v_conns s ++ [{| k_client_open := true; k_session := true;
+                                        k_replies := 0; k_hello := false |}])
+      else {| v_kind := v_kind s; v_started := v_started s; v_listening := v_listening s;
+              v_stopreq := v_stopreq s; v_done := v_done s; v_sockfile := v_sockfile s;
+              v_conns := v_conns s; v_refused := S (v_refused s) |}
+  | LHello c =>
+      match nth_error (v_conns s) c with
+      | Some k =>
+          if k_client_open k && k_session k && negb (k_hello k)
+          then
+            (* the handshake is answered with the pool's name; listen() then checks is_serving()
+               and ends the session at once if the server was stopped meanwhile *)
+            let k' := {| k_client_open := true; k_session := v_listening s;
+                         k_replies := S (k_replies k); k_hello := true |} in
+            settle (set_conns s (upd (v_conns s) c k'))
+          else s
+      | None => s
+      end
   | LSend c =>
       match nth_error (v_conns s) c with
       | Some k =>
-          if k_client_open k && k_session k
+          if k_client_open k && k_session k && k_hello k
           then
             (* the line is answered; the listen loop then re-checks is_serving() and ends the
                session (closing the connection) if the server was stopped meanwhile *)
             let k' := {| k_client_open := true; k_session := v_listening s;
-                         k_replies := S (k_replies k) |} in
+                         k_replies := S (k_replies k); k_hello := true |} in
             settle (set_conns s (upd (v_conns s) c k'))
           else s
       | None => s
@@ -109,7 +134,7 @@ Definition step (s : srv) (l : label) : srv :=
           if k_client_open k
           then settle (set_conns s (upd (v_conns s) c
                          {| k_client_open := false; k_session := false;
-                            k_replies := k_replies k |}))
+                            k_replies := k_replies k; k_hello := k_hello k |}))
           else s
       | None => s
       end
